@@ -1,9 +1,81 @@
-(* Lemma library for C07 (rule patterns). *)
-From Coq Require Import List String Ascii Bool Arith Lia.
-From Annet Require Import Base.Str Model.Pattern Spec.P_C07.
+(* C07 lemma library, part 2: word-level matching, reverse templates, round trips. *)
+From Coq Require Import List String Ascii Bool Arith NArith Lia.
+From Annet Require Import Base.Str Model.Pattern Spec.P_C07 Proofs.RegexProofs.
 Import ListNotations.
 Open Scope string_scope.
 Open Scope list_scope.
+
+Arguments Ascii.eqb : simpl never.
+Arguments String.eqb : simpl never.
+Arguments is_graph : simpl never.
+Arguments py_ws : simpl never.
+Arguments lit_char : simpl never.
+Arguments is_ws : simpl never.
+
+(* ------------------------------------------------------------------------------ *)
+(* pmatch_words <-> matches_spec                                                   *)
+
+Lemma tok_ok_binds ic t x :
+  tok_ok ic t x = true <-> exists b, tok_binds ic t x b.
+Proof.
+  destruct t as [w| |r|]; cbn; split.
+  - intro H. eexists. constructor. exact H.
+  - intros [b H]. inversion H; subst. assumption.
+  - intros _. eexists. constructor.
+  - reflexivity.
+  - intro H. eexists. constructor. apply sre_imatch_lang. exact H.
+  - intros [b H]. inversion H; subst. apply sre_imatch_lang. assumption.
+  - discriminate.
+  - intros [b H]. inversion H.
+Qed.
+
+Lemma pmatch_words_sound ic p : forall ws key,
+  pmatch_words p ic ws = Some key -> matches_spec ic p ws key.
+Proof.
+  induction p as [|t p IH]; intros ws key H; cbn in H.
+  - injection H as <-. constructor.
+  - destruct t as [w| |r|].
+    + destruct ws as [|x ws]; [discriminate|].
+      destruct (word_eq ic w x) eqn:E; [|discriminate].
+      change key with ([] ++ key). constructor; [constructor; exact E | apply IH; exact H].
+    + destruct ws as [|x ws]; [discriminate|].
+      destruct (pmatch_words p ic ws) as [k|] eqn:E; [|discriminate].
+      cbn in H. injection H as <-. change (x :: k) with ([x] ++ k).
+      constructor; [constructor | apply IH; exact E].
+    + destruct ws as [|x ws]; [discriminate|].
+      destruct (sre_imatch ic r x) eqn:M; [|discriminate].
+      destruct (pmatch_words p ic ws) as [k|] eqn:E; [|discriminate].
+      cbn in H. injection H as <-. change (x :: k) with ([x] ++ k).
+      constructor; [constructor; apply sre_imatch_lang; exact M | apply IH; exact E].
+    + destruct p; [|discriminate]. destruct ws as [|x ws]; [discriminate|].
+      injection H as <-. constructor. discriminate.
+Qed.
+
+Lemma pmatch_words_complete ic p ws key :
+  matches_spec ic p ws key -> pmatch_words p ic ws = Some key.
+Proof.
+  induction 1 as [rest | rest Hne | t p x ws b key Hb Hm IH].
+  - reflexivity.
+  - cbn. destruct rest; [congruence | reflexivity].
+  - inversion Hb; subst; cbn.
+    + rewrite H. exact IH.
+    + rewrite IH. reflexivity.
+    + apply sre_imatch_lang in H. rewrite H, IH. reflexivity.
+Qed.
+
+Theorem pmatch_words_iff ic p ws key :
+  pmatch_words p ic ws = Some key <-> matches_spec ic p ws key.
+Proof. split; [apply pmatch_words_sound | apply pmatch_words_complete]. Qed.
+
+(* the specification is functional: at most one key *)
+Lemma matches_spec_functional ic p ws k1 k2 :
+  matches_spec ic p ws k1 -> matches_spec ic p ws k2 -> k1 = k2.
+Proof.
+  intros H1 H2. apply pmatch_words_complete in H1, H2. congruence.
+Qed.
+
+(* ------------------------------------------------------------------------------ *)
+(* key length                                                                      *)
 
 Lemma pmatch_words_key_length p ic : forall ws key,
   pmatch_words p ic ws = Some key -> List.length key = nholes p.
@@ -22,4 +94,1054 @@ Proof.
       cbn in H. injection H as H; subst. cbn. f_equal. eapply IH; eauto.
     + destruct p; [|discriminate]. destruct ws; [discriminate|].
       injection H as H; subst. reflexivity.
+Qed.
+
+(* ------------------------------------------------------------------------------ *)
+(* the prefix-form checker computes the same                                       *)
+
+Lemma ends_tilde_cons t p : p <> [] -> ends_tilde (t :: p) = ends_tilde p.
+Proof.
+  intro H. unfold ends_tilde. cbn [rev].
+  destruct (rev p) as [|z q] eqn:E.
+  - exfalso. apply H. rewrite <- (rev_involutive p), E. reflexivity.
+  - reflexivity.
+Qed.
+
+Lemma body_cons t p : p <> [] -> body (t :: p) = t :: body p.
+Proof.
+  intro H. unfold body. rewrite ends_tilde_cons by exact H.
+  destruct (ends_tilde p); [|reflexivity].
+  destruct p; [congruence | reflexivity].
+Qed.
+
+Lemma ref_match_words_cons ic t p x ws : p <> [] ->
+  ref_match_words (t :: p) ic (x :: ws) =
+  if tok_ok ic t x then
+    option_map (fun k => (if is_lit t then [] else [x]) ++ k) (ref_match_words p ic ws)
+  else None.
+Proof.
+  intro H. unfold ref_match_words. rewrite body_cons, ends_tilde_cons by exact H.
+  cbn [List.length firstn skipn forallb2].
+  destruct (tok_ok ic t x); [|reflexivity]. cbn [andb].
+  match goal with |- context [if ?c then _ else _] => destruct c end; [|reflexivity].
+  cbn [option_map]. f_equal. unfold bound_words. cbn [combine filter fst snd].
+  destruct (is_lit t); cbn [negb map snd app]; reflexivity.
+Qed.
+
+Lemma ref_match_words_eq ic p : forall ws, ref_match_words p ic ws = pmatch_words p ic ws.
+Proof.
+  induction p as [|t p IH]; intro ws.
+  - unfold ref_match_words. cbn. reflexivity.
+  - destruct p as [|t2 p].
+    + (* last token *)
+      destruct t as [w| |r|]; unfold ref_match_words; cbn;
+        destruct ws as [|x ws]; cbn; try reflexivity.
+      * destruct (word_eq ic w x); reflexivity.
+      * destruct (sre_imatch ic r x); reflexivity.
+    + destruct ws as [|x ws].
+      * (* no words left *)
+        transitivity (@None (list string)).
+        -- unfold ref_match_words. rewrite body_cons by discriminate. reflexivity.
+        -- destruct t; reflexivity.
+      * rewrite ref_match_words_cons by discriminate. rewrite IH.
+        destruct t as [w| |r|]; cbn [tok_ok is_lit].
+        -- change (pmatch_words (Lit w :: t2 :: p) ic (x :: ws))
+             with (if word_eq ic w x then pmatch_words (t2 :: p) ic ws else None).
+           destruct (word_eq ic w x); [|reflexivity].
+           destruct (pmatch_words (t2 :: p) ic ws); reflexivity.
+        -- change (pmatch_words (Star :: t2 :: p) ic (x :: ws))
+             with (option_map (cons x) (pmatch_words (t2 :: p) ic ws)).
+           destruct (pmatch_words (t2 :: p) ic ws); reflexivity.
+        -- change (pmatch_words (StarRe r :: t2 :: p) ic (x :: ws))
+             with (if sre_imatch ic r x then option_map (cons x) (pmatch_words (t2 :: p) ic ws) else None).
+           destruct (sre_imatch ic r x); [|reflexivity].
+           destruct (pmatch_words (t2 :: p) ic ws); reflexivity.
+        -- reflexivity.
+Qed.
+
+Theorem ref_match_eq p ic row : ref_match p ic row = pmatch p ic row.
+Proof. destruct p; [reflexivity|]. apply ref_match_words_eq. Qed.
+
+(* ------------------------------------------------------------------------------ *)
+(* characters: facts by exhaustive case analysis                                   *)
+
+Ltac all_ascii c := destruct c as [[] [] [] [] [] [] [] []]; vm_compute; try reflexivity; try discriminate.
+
+Definition neqc (a : ascii) (c : ascii) : bool := negb (Ascii.eqb c a).
+
+Lemma graph_facts c : is_graph c = true ->
+  py_ws c = false /\ is_ws c = false /\ Ascii.eqb c sp = false.
+Proof. all_ascii c; auto. Qed.
+
+Lemma lit_char_facts c : lit_char c = true ->
+  is_graph c = true /\ neqc "*" c = true /\ neqc "~" c = true /\ neqc "{" c = true /\ neqc "}" c = true.
+Proof. all_ascii c; auto. Qed.
+
+Lemma py_ws_not_slash c : py_ws c = true -> Ascii.eqb c "/" = false.
+Proof. all_ascii c. Qed.
+
+Lemma py_ws_facts c : py_ws c = true ->
+  neqc "*" c = true /\ neqc "~" c = true /\ neqc "{" c = true /\ neqc "}" c = true.
+Proof. all_ascii c; auto. Qed.
+
+(* ------------------------------------------------------------------------------ *)
+(* strings as character lists                                                      *)
+
+Lemma l_of_app a b : l_of (a ++ b)%string = l_of a ++ l_of b.
+Proof. induction a; cbn; [reflexivity | f_equal; assumption]. Qed.
+
+Lemma l_of_inj a b : l_of a = l_of b -> a = b.
+Proof.
+  intro H. rewrite <- (string_of_list_ascii_of_string a), <- (string_of_list_ascii_of_string b), H.
+  reflexivity.
+Qed.
+
+Lemma l_of_s_of l : l_of (s_of l) = l.
+Proof. apply list_ascii_of_string_of_list_ascii. Qed.
+
+Lemma s_of_l_of s : s_of (l_of s) = s.
+Proof. apply string_of_list_ascii_of_string. Qed.
+
+Fixpoint ljoin (l : list (list ascii)) : list ascii :=
+  match l with
+  | [] => []
+  | [x] => x
+  | x :: r => x ++ sp :: ljoin r
+  end.
+
+Lemma ljoin_cons2 x y r : ljoin (x :: y :: r) = x ++ sp :: ljoin (y :: r).
+Proof. reflexivity. Qed.
+
+Lemma l_of_join ss : l_of (join_with " " ss) = ljoin (map l_of ss).
+Proof.
+  induction ss as [|x ss IH]; [reflexivity|].
+  destruct ss as [|y r]; [reflexivity|].
+  change (join_with " " (x :: y :: r)) with (x ++ " " ++ join_with " " (y :: r))%string.
+  rewrite !l_of_app, IH. reflexivity.
+Qed.
+
+Lemma is_empty_l_of s : is_empty s = false <-> l_of s <> [].
+Proof. destruct s; cbn; split; intro H; congruence. Qed.
+
+(* ------------------------------------------------------------------------------ *)
+(* prefixes                                                                        *)
+
+Lemma lprefix_app a x : lprefix a (a ++ x) = true.
+Proof. induction a; cbn; [reflexivity|]. rewrite Ascii.eqb_refl. exact IHa. Qed.
+
+Lemma lprefix_true a : forall s, lprefix a s = true -> s = a ++ skipn (List.length a) s.
+Proof.
+  induction a as [|c a IH]; intros s H; [reflexivity|].
+  destruct s as [|d s]; [discriminate|]. cbn in H.
+  apply andb_true_iff in H as [E H]. apply Ascii.eqb_eq in E. subst.
+  cbn. f_equal. apply IH. exact H.
+Qed.
+
+Lemma skipn_app_exact {A} (a x : list A) : skipn (List.length a) (a ++ x) = x.
+Proof. induction a; cbn; auto. Qed.
+
+Definition nosp (a : list ascii) : bool := forallb (fun c => negb (Ascii.eqb c sp)) a.
+
+Lemma lprefix_sp_eq a : forall b x y, nosp a = true -> nosp b = true ->
+  lprefix (a ++ sp :: x) (b ++ sp :: y) = true -> a = b.
+Proof.
+  induction a as [|c a IH]; intros b x y Ha Hb H.
+  - destruct b as [|d b]; [reflexivity|]. cbn in H, Hb.
+    apply andb_true_iff in H as [E _]. apply Ascii.eqb_eq in E. subst.
+    apply andb_true_iff in Hb as [Hd _]. rewrite Ascii.eqb_refl in Hd. discriminate.
+  - cbn in Ha. apply andb_true_iff in Ha as [Hc Ha].
+    destruct b as [|d b].
+    + cbn in H. apply andb_true_iff in H as [E _]. apply Ascii.eqb_eq in E. subst.
+      rewrite Ascii.eqb_refl in Hc. discriminate.
+    + cbn in H, Hb. apply andb_true_iff in H as [E H]. apply Ascii.eqb_eq in E. subst.
+      apply andb_true_iff in Hb as [_ Hb]. f_equal. eapply IH; eauto.
+Qed.
+
+Lemma lprefix_sp_nosp a : forall x b, nosp b = true -> lprefix (a ++ sp :: x) b = false.
+Proof.
+  induction a as [|c a IH]; intros x b Hb.
+  - destruct b as [|d b]; [reflexivity|]. cbn in *.
+    apply andb_true_iff in Hb as [Hd _].
+    destruct (Ascii.eqb sp d) eqn:E; [|reflexivity]. apply Ascii.eqb_eq in E. subst.
+    rewrite Ascii.eqb_refl in Hd. discriminate.
+  - destruct b as [|d b]; [reflexivity|]. cbn in *.
+    apply andb_true_iff in Hb as [_ Hb]. rewrite IH by exact Hb. apply andb_false_r.
+Qed.
+
+(* ------------------------------------------------------------------------------ *)
+(* token texts                                                                     *)
+
+Definition ptok (t : tok) : list ascii := l_of (print_tok t).
+
+Lemma text_of_pat p : l_of (print_pat p) = ljoin (map ptok p).
+Proof. unfold print_pat. rewrite l_of_join, map_map. reflexivity. Qed.
+
+Lemma forallb_impl {A} (f g : A -> bool) l :
+  (forall x, f x = true -> g x = true) -> forallb f l = true -> forallb g l = true.
+Proof.
+  intros H. induction l; cbn; [reflexivity|]. intro E. apply andb_true_iff in E as [E1 E2].
+  rewrite (H _ E1), IHl; auto.
+Qed.
+
+Lemma ptok_re r : ptok (StarRe r) = "*"%char :: "/"%char :: print_sre_l r ++ ["/"%char].
+Proof.
+  unfold ptok, print_tok, print_sre. rewrite !l_of_app, l_of_s_of. reflexivity.
+Qed.
+
+Lemma sre_ok_text r : sre_ok r = true ->
+  print_sre_l r <> [] /\ forallb is_graph (print_sre_l r) = true.
+Proof.
+  unfold sre_ok. intro H.
+  apply andb_true_iff in H as [H _]. apply andb_true_iff in H as [H _].
+  apply andb_true_iff in H as [H1 H2]. split; [|exact H2].
+  destruct (print_sre_l r); [discriminate | congruence].
+Qed.
+
+Lemma ptok_graph t : wf_tok t = true -> forallb is_graph (ptok t) = true /\ ptok t <> [].
+Proof.
+  destruct t as [w| |r|]; cbn [wf_tok]; intro H.
+  - unfold plain_word in H. apply andb_true_iff in H as [H1 H2]. split.
+    + unfold ptok. cbn. eapply forallb_impl; [|exact H2]. intros c Hc. apply lit_char_facts in Hc. tauto.
+    + apply is_empty_l_of. apply negb_true_iff. exact H1.
+  - split; [reflexivity | discriminate].
+  - rewrite ptok_re. apply sre_ok_text in H as [_ H]. split; [|discriminate].
+    cbn. rewrite forallb_app, H. reflexivity.
+  - split; [reflexivity | discriminate].
+Qed.
+
+Lemma graph_nosp a : forallb is_graph a = true -> nosp a = true.
+Proof.
+  apply forallb_impl. intros c H. apply graph_facts in H as (_ & _ & H). rewrite H. reflexivity.
+Qed.
+
+Lemma plain_word_graph w : plain_word w = true -> forallb is_graph (l_of w) = true /\ l_of w <> [].
+Proof. intro H. apply (ptok_graph (Lit w)). exact H. Qed.
+
+(* ------------------------------------------------------------------------------ *)
+(* reverse_row on pattern texts                                                    *)
+
+Lemma plain_word_first w : plain_word w = true ->
+  exists c r, l_of w = c :: r /\ lit_char c = true.
+Proof.
+  unfold plain_word. intro H. apply andb_true_iff in H as [H1 H2].
+  destruct (l_of w) as [|c r] eqn:E.
+  - destruct w; [discriminate | discriminate].
+  - cbn in H2. apply andb_true_iff in H2 as [H2 _]. eauto.
+Qed.
+
+Lemma ptok_eq_prefix t prefix : plain_word prefix = true -> ptok t = l_of prefix -> t = Lit prefix.
+Proof.
+  intros Hp E. apply plain_word_first in Hp as (c & r & Ec & Hc).
+  destruct t as [w| |r'|].
+  - unfold ptok in E. cbn in E. apply l_of_inj in E. subst. reflexivity.
+  - unfold ptok in E. cbn in E. rewrite Ec in E. injection E as <- _. discriminate.
+  - rewrite ptok_re, Ec in E. injection E as <- _. discriminate.
+  - unfold ptok in E. cbn in E. rewrite Ec in E. injection E as <- _. discriminate.
+Qed.
+
+Lemma reverse_row_pat p prefix :
+  p <> [] -> forallb wf_tok p = true -> plain_word prefix = true ->
+  reverse_row_l (ljoin (map ptok p)) (l_of prefix) = ljoin (map ptok (reverse_pat p prefix)).
+Proof.
+  intros Hne Hwf Hp. unfold reverse_row_l.
+  destruct (plain_word_graph _ Hp) as [Hpg _]. apply graph_nosp in Hpg.
+  destruct p as [|t1 p]; [congruence|]. cbn in Hwf. apply andb_true_iff in Hwf as [Ht1 Hwf].
+  destruct (ptok_graph _ Ht1) as [Hg1 _]. apply graph_nosp in Hg1.
+  destruct p as [|t2 p].
+  - (* single token: the text has no blank *)
+    cbn [map ljoin]. rewrite lprefix_sp_nosp by exact Hg1.
+    replace (reverse_pat [t1] prefix) with [Lit prefix; t1] by (destruct t1; reflexivity).
+    cbn [map ljoin]. rewrite <- app_assoc. reflexivity.
+  - rewrite map_cons, (map_cons ptok t2 p), ljoin_cons2.
+    destruct (lprefix ((l_of prefix ++ [sp]) ) (ptok t1 ++ sp :: ljoin (ptok t2 :: map ptok p))) eqn:E.
+    + assert (Et : ptok t1 = l_of prefix) by (symmetry; eapply lprefix_sp_eq; eauto).
+      apply ptok_eq_prefix in Et; [|exact Hp]. subst t1.
+      cbn [reverse_pat]. rewrite String.eqb_refl.
+      change (ptok (Lit prefix)) with (l_of prefix).
+      replace (l_of prefix ++ sp :: ljoin (ptok t2 :: map ptok p))
+        with ((l_of prefix ++ [sp]) ++ ljoin (ptok t2 :: map ptok p))
+        by (rewrite <- app_assoc; reflexivity).
+      rewrite skipn_app_exact. reflexivity.
+    + assert (R : reverse_pat (t1 :: t2 :: p) prefix = Lit prefix :: t1 :: t2 :: p).
+      { destruct t1 as [w| |r|]; try reflexivity. cbn.
+        destruct (String.eqb w prefix) eqn:Ew; [|reflexivity].
+        apply String.eqb_eq in Ew. subst w. exfalso.
+        change (ptok (Lit prefix)) with (l_of prefix) in E.
+        replace (l_of prefix ++ sp :: ljoin (ptok t2 :: map ptok p))
+          with ((l_of prefix ++ [sp]) ++ ljoin (ptok t2 :: map ptok p)) in E
+          by (rewrite <- app_assoc; reflexivity).
+        rewrite lprefix_app in E. discriminate. }
+      rewrite R. rewrite !map_cons, ljoin_cons2. rewrite <- app_assoc. reflexivity.
+Qed.
+
+(* ------------------------------------------------------------------------------ *)
+(* step 2: the trailing `~` becomes a placeholder                                  *)
+
+Definition hole : list ascii := ["{"%char; "}"%char].
+Definition htok (t : tok) : list ascii := match t with Tilde => hole | _ => ptok t end.
+Definition stok (t : tok) : list ascii := match t with Lit w => l_of w | _ => hole end.
+
+Lemma unsnoc_snoc i c : unsnoc (i ++ [c]) = Some (i, c).
+Proof.
+  induction i as [|d i IH]; [reflexivity|]. cbn [app unsnoc]. rewrite IH.
+  destruct (i ++ [c]) eqn:E; [destruct i; discriminate | reflexivity].
+Qed.
+
+Lemma tilde_to_hole_snoc i c : Ascii.eqb c "~" = false -> tilde_to_hole (i ++ [c]) = i ++ [c].
+Proof. intro H. unfold tilde_to_hole. rewrite unsnoc_snoc, H. reflexivity. Qed.
+
+Lemma tilde_to_hole_app a b : b <> [] -> tilde_to_hole (a ++ b) = a ++ tilde_to_hole b.
+Proof.
+  intro H. destruct (exists_last H) as (i & c & ->).
+  unfold tilde_to_hole. rewrite app_assoc, !unsnoc_snoc.
+  destruct (Ascii.eqb c "~"); rewrite <- ?app_assoc; reflexivity.
+Qed.
+
+Lemma forallb_last {A} (f : A -> bool) i c : forallb f (i ++ [c]) = true -> f c = true.
+Proof. rewrite forallb_app. cbn. intro H. apply andb_true_iff in H as [_ H]. rewrite andb_true_r in H. exact H. Qed.
+
+Lemma tilde_to_hole_tok t : wf_tok t = true -> tilde_to_hole (ptok t) = htok t.
+Proof.
+  destruct t as [w| |r|]; intro H; try reflexivity.
+  - cbn [wf_tok] in H. unfold htok, ptok. cbn [print_tok].
+    unfold plain_word in H. apply andb_true_iff in H as [H1 H2].
+    assert (Hne : l_of w <> []) by (apply is_empty_l_of, negb_true_iff; exact H1).
+    destruct (exists_last Hne) as (i & c & E). rewrite E in *.
+    apply forallb_last in H2. apply lit_char_facts in H2 as (_ & _ & H2 & _).
+    apply tilde_to_hole_snoc. unfold neqc in H2. apply negb_true_iff. exact H2.
+  - unfold htok. rewrite ptok_re.
+    change ("*"%char :: "/"%char :: print_sre_l r ++ ["/"%char])
+      with (("*"%char :: "/"%char :: print_sre_l r) ++ ["/"%char]).
+    apply tilde_to_hole_snoc. reflexivity.
+Qed.
+
+Lemma ljoin_nonempty l : l <> [] -> (forall x, In x l -> x <> []) -> ljoin l <> [].
+Proof.
+  destruct l as [|x [|y r]]; intros H1 H2; [congruence | |].
+  - cbn. apply H2. left. reflexivity.
+  - rewrite ljoin_cons2. intro E. apply app_nil_both in E as [_ E]. discriminate.
+Qed.
+
+Lemma htok_not_tilde t : is_tilde t = false -> htok t = ptok t.
+Proof. destruct t; try reflexivity. discriminate. Qed.
+
+Lemma tilde_to_hole_pat q :
+  forallb wf_tok q = true -> tilde_last q = true ->
+  tilde_to_hole (ljoin (map ptok q)) = ljoin (map htok q).
+Proof.
+  induction q as [|t q IH]; intros Hwf Htl; [reflexivity|].
+  cbn [forallb] in Hwf. apply andb_true_iff in Hwf as [Ht Hwf].
+  destruct q as [|t2 q].
+  - cbn [map ljoin]. apply tilde_to_hole_tok. exact Ht.
+  - cbn [tilde_last] in Htl. apply andb_true_iff in Htl as [Hnt Htl]. apply negb_true_iff in Hnt.
+    rewrite !map_cons, !ljoin_cons2, <- !map_cons.
+    rewrite tilde_to_hole_app by discriminate.
+    change (sp :: ljoin (map ptok (t2 :: q))) with ([sp] ++ ljoin (map ptok (t2 :: q))).
+    rewrite tilde_to_hole_app.
+    + rewrite IH by assumption. rewrite htok_not_tilde by exact Hnt. reflexivity.
+    + apply ljoin_nonempty; [discriminate|].
+      intros x Hx. apply in_map_iff in Hx as (t' & <- & Hin).
+      eapply forallb_forall in Hwf; [|exact Hin]. apply ptok_graph in Hwf. tauto.
+Qed.
+
+(* ------------------------------------------------------------------------------ *)
+(* step 3: re.sub(r"\*(/\S+/)?", "{}", ...)                                         *)
+
+Definition brk (rest : list ascii) : bool := match rest with [] => true | c :: _ => py_ws c end.
+
+Lemma sub_star_plain a : forall rest, forallb (neqc "*") a = true ->
+  sub_star 0 (a ++ rest) = a ++ sub_star 0 rest.
+Proof.
+  induction a as [|c a IH]; intros rest H; [reflexivity|].
+  cbn [forallb] in H. apply andb_true_iff in H as [Hc H].
+  cbn [app sub_star]. unfold neqc in Hc. apply negb_true_iff in Hc. rewrite Hc.
+  f_equal. apply IH. exact H.
+Qed.
+
+Lemma sub_star_skip a : forall rest, sub_star (List.length a) (a ++ rest) = sub_star 0 rest.
+Proof. induction a as [|c a IH]; intro rest; [reflexivity|]. cbn. apply IH. Qed.
+
+Lemma last_slash_brk rest i : brk rest = true -> last_slash rest i = None.
+Proof. destruct rest as [|c r]; cbn; [reflexivity|]. intro H. rewrite H. reflexivity. Qed.
+
+Lemma last_slash_run X : forall rest i,
+  forallb is_graph X = true -> brk rest = true -> 1 <= i + List.length X ->
+  last_slash (X ++ "/"%char :: rest) i = Some (i + List.length X).
+Proof.
+  induction X as [|c X IH]; intros rest i HX Hb Hi.
+  - cbn [app last_slash List.length]. change (py_ws "/") with false. cbn iota.
+    rewrite last_slash_brk by exact Hb. rewrite Ascii.eqb_refl. cbn [andb].
+    rewrite Nat.add_0_r in *. destruct (Nat.leb 1 i) eqn:E; [reflexivity|].
+    apply Nat.leb_gt in E. lia.
+  - cbn [forallb] in HX. apply andb_true_iff in HX as [Hc HX].
+    cbn [app last_slash List.length]. apply graph_facts in Hc as (Hc & _). rewrite Hc.
+    rewrite IH; [f_equal; lia | exact HX | exact Hb | lia].
+Qed.
+
+Lemma opt_re_len_brk rest : brk rest = true -> opt_re_len rest = 0.
+Proof.
+  destruct rest as [|c r]; cbn; [reflexivity|]. intro H.
+  rewrite (py_ws_not_slash _ H). reflexivity.
+Qed.
+
+Lemma sub_star_re X rest :
+  X <> [] -> forallb is_graph X = true -> brk rest = true ->
+  sub_star 0 ("*"%char :: "/"%char :: X ++ "/"%char :: rest) = hole ++ sub_star 0 rest.
+Proof.
+  intros Hne Hg Hb.
+  assert (L : opt_re_len ("/"%char :: X ++ "/"%char :: rest)
+              = List.length ("/"%char :: X ++ ["/"%char])).
+  { unfold opt_re_len. change (Ascii.eqb "/" "/") with true. cbn iota.
+    rewrite last_slash_run; [|exact Hg|exact Hb|].
+    - cbn [List.length plus]. rewrite app_length. cbn [List.length]. lia.
+    - destruct X; [congruence | cbn; lia]. }
+  remember ("/"%char :: X ++ "/"%char :: rest) as tl eqn:Et.
+  cbn [sub_star]. change (Ascii.eqb "*" "*") with true. cbn iota.
+  rewrite L. subst tl.
+  replace ("/"%char :: X ++ "/"%char :: rest) with (("/"%char :: X ++ ["/"%char]) ++ rest)
+    by (cbn [app]; rewrite <- app_assoc; reflexivity).
+  rewrite sub_star_skip. reflexivity.
+Qed.
+
+Lemma sub_star_tok t rest : wf_tok t = true -> brk rest = true ->
+  sub_star 0 (htok t ++ rest) = stok t ++ sub_star 0 rest.
+Proof.
+  intros Ht Hb. destruct t as [w| |r|].
+  - cbn [htok stok]. unfold ptok. cbn [print_tok]. apply sub_star_plain.
+    cbn [wf_tok] in Ht. unfold plain_word in Ht. apply andb_true_iff in Ht as [_ Ht].
+    eapply forallb_impl; [|exact Ht]. intros c Hc. apply lit_char_facts in Hc. tauto.
+  - cbn [htok stok]. unfold ptok. cbn [print_tok l_of app].
+    remember rest as tl eqn:Et. cbn [sub_star]. change (Ascii.eqb "*" "*") with true. cbn iota.
+    subst tl. rewrite opt_re_len_brk by exact Hb. reflexivity.
+  - cbn [htok stok]. rewrite ptok_re. cbn [wf_tok] in Ht. apply sre_ok_text in Ht as [Hne Hg].
+    cbn [app]. rewrite <- app_assoc. cbn [app]. apply sub_star_re; assumption.
+  - cbn [htok stok]. apply (sub_star_plain hole). reflexivity.
+Qed.
+
+Lemma sub_star_pat q : forallb wf_tok q = true ->
+  sub_star 0 (ljoin (map htok q)) = ljoin (map stok q).
+Proof.
+  induction q as [|t q IH]; intro Hwf; [reflexivity|].
+  cbn [forallb] in Hwf. apply andb_true_iff in Hwf as [Ht Hwf].
+  destruct q as [|t2 q].
+  - cbn [map ljoin]. rewrite <- (app_nil_r (htok t)), sub_star_tok by auto.
+    cbn. apply app_nil_r.
+  - rewrite !map_cons, !ljoin_cons2, <- !map_cons.
+    rewrite sub_star_tok by auto. f_equal.
+    cbn [sub_star]. change (Ascii.eqb sp "*") with false. cbn iota. f_equal. apply IH. exact Hwf.
+Qed.
+
+(* ------------------------------------------------------------------------------ *)
+(* step 4: re.sub(r"\s*~(/\S+/)?", "", ...) finds nothing to remove                 *)
+
+Lemma strip_tilde_none s : forall pend, forallb (neqc "~") s = true ->
+  strip_tilde pend 0 s = pend ++ s.
+Proof.
+  induction s as [|c s IH]; intros pend H; [symmetry; apply app_nil_r|].
+  cbn [forallb] in H. apply andb_true_iff in H as [Hc H]. cbn [strip_tilde].
+  destruct (py_ws c).
+  - rewrite IH by exact H. rewrite <- app_assoc. reflexivity.
+  - unfold neqc in Hc. apply negb_true_iff in Hc. rewrite Hc. rewrite IH by exact H. reflexivity.
+Qed.
+
+Lemma forallb_ljoin f l : f sp = true -> (forall x, In x l -> forallb f x = true) ->
+  forallb f (ljoin l) = true.
+Proof.
+  intros Hs. induction l as [|x l IH]; intro H; [reflexivity|].
+  destruct l as [|y l].
+  - cbn. apply H. left. reflexivity.
+  - rewrite ljoin_cons2, forallb_app. cbn [forallb]. rewrite Hs.
+    rewrite (H x) by (left; reflexivity). rewrite IH; [reflexivity|].
+    intros z Hz. apply H. right. exact Hz.
+Qed.
+
+Lemma stok_chars t : wf_tok t = true ->
+  forallb (fun c => neqc "~" c) (stok t) = true.
+Proof.
+  destruct t as [w| |r|]; intro H; try reflexivity.
+  cbn [wf_tok stok] in *. unfold plain_word in H. apply andb_true_iff in H as [_ H].
+  eapply forallb_impl; [|exact H]. intros c Hc. apply lit_char_facts in Hc. tauto.
+Qed.
+
+Lemma strip_tilde_pat q : forallb wf_tok q = true ->
+  strip_tilde [] 0 (ljoin (map stok q)) = ljoin (map stok q).
+Proof.
+  intro Hwf. rewrite strip_tilde_none; [reflexivity|].
+  apply forallb_ljoin; [reflexivity|].
+  intros x Hx. apply in_map_iff in Hx as (t & <- & Hin).
+  apply stok_chars. eapply forallb_forall in Hwf; eauto.
+Qed.
+
+(* ------------------------------------------------------------------------------ *)
+(* step 5: str.format                                                              *)
+
+Definition nobrace (c : ascii) : bool := neqc "{" c && neqc "}" c.
+
+Lemma format_plain a : forall rest key, forallb nobrace a = true ->
+  format_l (a ++ rest) key = option_map (app a) (format_l rest key).
+Proof.
+  induction a as [|c a IH]; intros rest key H.
+  - cbn. destruct (format_l rest key); reflexivity.
+  - cbn [forallb] in H. apply andb_true_iff in H as [Hc H].
+    unfold nobrace, neqc in Hc. apply andb_true_iff in Hc as [H1 H2].
+    apply negb_true_iff in H1, H2.
+    cbn [app format_l]. rewrite H1, H2. rewrite IH by exact H.
+    destruct (format_l rest key); reflexivity.
+Qed.
+
+Lemma format_hole rest key :
+  format_l (hole ++ rest) key =
+  match key with
+  | k :: ks => option_map (app (l_of k)) (format_l rest ks)
+  | [] => None
+  end.
+Proof. reflexivity. Qed.
+
+Lemma subst_key_length q : forall key ws, subst_key q key = Some ws -> List.length ws = List.length q.
+Proof.
+  induction q as [|t q IH]; intros key ws H; cbn in H.
+  - injection H as <-. reflexivity.
+  - destruct t as [w| |r|].
+    + destruct (subst_key q key) eqn:E; [|discriminate]. injection H as <-. cbn. f_equal. eauto.
+    + destruct key as [|k ks]; [discriminate|].
+      destruct (subst_key q ks) eqn:E; [|discriminate]. injection H as <-. cbn. f_equal. eauto.
+    + destruct key as [|k ks]; [discriminate|].
+      destruct (subst_key q ks) eqn:E; [|discriminate]. injection H as <-. cbn. f_equal. eauto.
+    + destruct key as [|k ks]; [discriminate|].
+      destruct (subst_key q ks) eqn:E; [|discriminate]. injection H as <-. cbn. f_equal. eauto.
+Qed.
+
+Lemma stok_nobrace t : wf_tok t = true -> is_lit t = true -> forallb nobrace (stok t) = true.
+Proof.
+  destruct t as [w| |r|]; intros H L; try discriminate.
+  cbn [wf_tok stok] in *. unfold plain_word in H. apply andb_true_iff in H as [_ H].
+  eapply forallb_impl; [|exact H]. intros c Hc. apply lit_char_facts in Hc.
+  unfold nobrace. destruct Hc as (_ & _ & _ & -> & ->). reflexivity.
+Qed.
+
+Definition ljoin_words (ws : list string) : list ascii := ljoin (map l_of ws).
+
+Lemma format_pat q : forall key, forallb wf_tok q = true ->
+  format_l (ljoin (map stok q)) key = option_map ljoin_words (subst_key q key).
+Proof.
+  induction q as [|t q IH]; intros key Hwf; [reflexivity|].
+  cbn [forallb] in Hwf. apply andb_true_iff in Hwf as [Ht Hwf].
+  destruct q as [|t2 q].
+  - cbn [map ljoin]. rewrite <- (app_nil_r (stok t)).
+    destruct t as [w| |r|]; cbn [stok subst_key];
+      try (rewrite format_hole; destruct key as [|k ks]; [reflexivity|]; cbn;
+           unfold ljoin_words; cbn; rewrite app_nil_r; reflexivity).
+    rewrite format_plain by (apply (stok_nobrace (Lit w)); auto). cbn.
+    unfold ljoin_words. cbn. rewrite app_nil_r. reflexivity.
+  - rewrite !map_cons, !ljoin_cons2, <- !map_cons.
+    assert (Hsp : forall key', format_l (sp :: ljoin (map stok (t2 :: q))) key' =
+                   option_map (cons sp) (option_map ljoin_words (subst_key (t2 :: q) key'))).
+    { intro key'. rewrite <- IH by exact Hwf. reflexivity. }
+    assert (Hj : forall x ws, List.length ws = List.length (t2 :: q) ->
+                 ljoin_words (x :: ws) = l_of x ++ sp :: ljoin_words ws).
+    { intros x ws Hl. destruct ws as [|y ws]; [discriminate|]. reflexivity. }
+    destruct t as [w| |r|]; cbn [stok].
+    + rewrite format_plain by (apply (stok_nobrace (Lit w)); auto). rewrite Hsp.
+      change (subst_key (Lit w :: t2 :: q) key) with (option_map (cons w) (subst_key (t2 :: q) key)).
+      destruct (subst_key (t2 :: q) key) as [ws|] eqn:E; [|reflexivity].
+      cbn [option_map]. f_equal. symmetry. apply Hj. eapply subst_key_length; eauto.
+    + rewrite format_hole. destruct key as [|k ks]; [reflexivity|]. rewrite Hsp.
+      change (subst_key (Star :: t2 :: q) (k :: ks)) with (option_map (cons k) (subst_key (t2 :: q) ks)).
+      destruct (subst_key (t2 :: q) ks) as [ws|] eqn:E; [|reflexivity].
+      cbn [option_map]. f_equal. symmetry. apply Hj. eapply subst_key_length; eauto.
+    + rewrite format_hole. destruct key as [|k ks]; [reflexivity|]. rewrite Hsp.
+      change (subst_key (StarRe r :: t2 :: q) (k :: ks)) with (option_map (cons k) (subst_key (t2 :: q) ks)).
+      destruct (subst_key (t2 :: q) ks) as [ws|] eqn:E; [|reflexivity].
+      cbn [option_map]. f_equal. symmetry. apply Hj. eapply subst_key_length; eauto.
+    + rewrite format_hole. destruct key as [|k ks]; [reflexivity|]. rewrite Hsp.
+      change (subst_key (Tilde :: t2 :: q) (k :: ks)) with (option_map (cons k) (subst_key (t2 :: q) ks)).
+      destruct (subst_key (t2 :: q) ks) as [ws|] eqn:E; [|reflexivity].
+      cbn [option_map]. f_equal. symmetry. apply Hj. eapply subst_key_length; eauto.
+Qed.
+
+(* ------------------------------------------------------------------------------ *)
+(* the removal command                                                             *)
+
+Lemma wf_pat_parts p : wf_pat p = true -> p <> [] /\ forallb wf_tok p = true /\ tilde_last p = true.
+Proof.
+  unfold wf_pat. intro H. apply andb_true_iff in H as [H H3]. apply andb_true_iff in H as [H1 H2].
+  repeat split; try assumption. destruct p; [discriminate | congruence].
+Qed.
+
+Lemma tilde_last_tail t p : tilde_last (t :: p) = true -> tilde_last p = true.
+Proof. destruct p as [|t2 p]; [reflexivity|]. cbn. intro H. apply andb_true_iff in H. tauto. Qed.
+
+Lemma reverse_pat_wf p prefix :
+  forallb wf_tok p = true -> tilde_last p = true -> plain_word prefix = true ->
+  forallb wf_tok (reverse_pat p prefix) = true /\ tilde_last (reverse_pat p prefix) = true.
+Proof.
+  intros Hwf Htl Hp.
+  assert (G : forallb wf_tok (Lit prefix :: p) = true /\ tilde_last (Lit prefix :: p) = true).
+  { split; [cbn; rewrite Hp, Hwf; reflexivity|]. destruct p; [reflexivity|]. cbn [tilde_last is_tilde negb andb]. exact Htl. }
+  destruct p as [|t1 [|t2 p]]; try exact G.
+  { destruct t1; exact G. }
+  destruct t1 as [w| |r|]; try exact G. cbn [reverse_pat].
+  destruct (String.eqb w prefix); [|exact G]. split.
+  - cbn [forallb] in Hwf. apply andb_true_iff in Hwf. tauto.
+  - eapply tilde_last_tail; eauto.
+Qed.
+
+Lemma make_reverse_l_pat p prefix :
+  wf_pat p = true -> plain_word prefix = true ->
+  make_reverse_l (l_of (print_pat p)) (l_of prefix) = ljoin (map stok (reverse_pat p prefix)).
+Proof.
+  intros Hwf Hp. apply wf_pat_parts in Hwf as (Hne & Hwf & Htl).
+  destruct (reverse_pat_wf p prefix Hwf Htl Hp) as [Hwf' Htl'].
+  unfold make_reverse_l. rewrite text_of_pat, reverse_row_pat by assumption.
+  rewrite tilde_to_hole_pat, sub_star_pat, strip_tilde_pat by assumption. reflexivity.
+Qed.
+
+Lemma s_of_ljoin_words ws : s_of (ljoin_words ws) = join_with " " ws.
+Proof. unfold ljoin_words. rewrite <- l_of_join. apply s_of_l_of. Qed.
+
+Theorem make_reverse_format p prefix key :
+  wf_pat p = true -> plain_word prefix = true ->
+  format_template_opt (make_reverse (print_pat p) prefix) key = ref_reverse p prefix key.
+Proof.
+  intros Hwf Hp. unfold format_template_opt, make_reverse, ref_reverse.
+  rewrite l_of_s_of, make_reverse_l_pat by assumption.
+  apply wf_pat_parts in Hwf as (Hne & Hwf & Htl).
+  destruct (reverse_pat_wf p prefix Hwf Htl Hp) as [Hwf' _].
+  rewrite format_pat by exact Hwf'.
+  destruct (subst_key (reverse_pat p prefix) key) as [ws|]; [|reflexivity].
+  cbn [option_map]. rewrite s_of_ljoin_words. reflexivity.
+Qed.
+
+(* the template itself: negation word and the rule's words, placeholders as "{}" *)
+Theorem make_reverse_template p prefix :
+  wf_pat p = true -> plain_word prefix = true ->
+  make_reverse (print_pat p) prefix =
+  join_with " " (map (fun t => match t with Lit w => w | _ => "{}" end) (reverse_pat p prefix)).
+Proof.
+  intros Hwf Hp. unfold make_reverse. rewrite make_reverse_l_pat by assumption.
+  apply l_of_inj. rewrite l_of_s_of, l_of_join, map_map. f_equal.
+  apply map_ext. intros [w| |r|]; reflexivity.
+Qed.
+
+(* ------------------------------------------------------------------------------ *)
+(* double negation                                                                 *)
+
+Lemma reverse_row_l_involutive row pre :
+  lprefix ((pre ++ [sp]) ++ pre ++ [sp]) row = false ->
+  reverse_row_l (reverse_row_l row pre) pre = row.
+Proof.
+  intro G. unfold reverse_row_l at 2.
+  destruct (lprefix (pre ++ [sp]) row) eqn:E.
+  - pose proof (lprefix_true _ _ E) as Hrow.
+    remember (skipn (List.length (pre ++ [sp])) row) as rest eqn:Er. clear Er.
+    unfold reverse_row_l.
+    destruct (lprefix (pre ++ [sp]) rest) eqn:E2.
+    + exfalso. pose proof (lprefix_true _ _ E2) as Hrest.
+      remember (skipn (List.length (pre ++ [sp])) rest) as rest2 eqn:Er2. clear Er2.
+      subst rest. subst row. rewrite (app_assoc (pre ++ [sp]) (pre ++ [sp]) rest2), lprefix_app in G. discriminate.
+    + symmetry. exact Hrow.
+  - unfold reverse_row_l. rewrite lprefix_app, skipn_app_exact. reflexivity.
+Qed.
+
+Theorem reverse_row_involutive row prefix :
+  startswith (prefix ++ " " ++ prefix ++ " ") row = false ->
+  reverse_row (reverse_row row prefix) prefix = row.
+Proof.
+  intro G. unfold reverse_row. rewrite l_of_s_of, reverse_row_l_involutive; [apply s_of_l_of|].
+  unfold startswith in G.
+  assert (P : forall a s, String.prefix a s = lprefix (l_of a) (l_of s)).
+  { induction a as [|c a IH]; intros [|d s]; cbn; try reflexivity.
+    rewrite <- IH. destruct (ascii_dec c d) as [->|N].
+    - rewrite Ascii.eqb_refl. reflexivity.
+    - apply Ascii.eqb_neq in N. rewrite N. reflexivity. }
+  rewrite P, !l_of_app in G. cbn [l_of app] in G. change " "%char with sp in G.
+  rewrite <- app_assoc. cbn [app]. exact G.
+Qed.
+
+(* negating a plain rule and negating again: the rule comes back *)
+Theorem reverse_row_plain_twice row prefix :
+  startswith (prefix ++ " ") row = false ->
+  reverse_row (reverse_row row prefix) prefix = row.
+Proof.
+  intro G. unfold reverse_row, reverse_row_l. rewrite !l_of_s_of.
+  assert (P : forall a s, String.prefix a s = lprefix (l_of a) (l_of s)).
+  { induction a as [|c a IH]; intros [|d s]; cbn; try reflexivity.
+    rewrite <- IH. destruct (ascii_dec c d) as [->|N].
+    - rewrite Ascii.eqb_refl. reflexivity.
+    - apply Ascii.eqb_neq in N. rewrite N. reflexivity. }
+  unfold startswith in G. rewrite P, l_of_app in G. cbn [l_of] in G.
+  change " "%char with sp in G. rewrite G.
+  rewrite lprefix_app, skipn_app_exact. apply s_of_l_of.
+Qed.
+
+(* a rule that already starts with the negation word: reversing strips it *)
+Theorem reverse_row_strips row prefix :
+  reverse_row (prefix ++ " " ++ row) prefix = row.
+Proof.
+  unfold reverse_row, reverse_row_l. rewrite !l_of_app. cbn [l_of app]. change " "%char with sp.
+  replace (l_of prefix ++ sp :: l_of row) with ((l_of prefix ++ [sp]) ++ l_of row)
+    by (rewrite <- app_assoc; reflexivity).
+  rewrite lprefix_app, skipn_app_exact. apply s_of_l_of.
+Qed.
+
+Theorem reverse_pat_involutive p prefix :
+  p <> [] ->
+  (forall p', p <> Lit prefix :: Lit prefix :: p' \/ p' = []) ->
+  reverse_pat (reverse_pat p prefix) prefix = p.
+Proof.
+  intros Hne G.
+  assert (A : forall q, reverse_pat (Lit prefix :: q) prefix = match q with [] => [Lit prefix; Lit prefix] | _ => q end).
+  { intros [|t q]; cbn; [reflexivity|]. rewrite String.eqb_refl. reflexivity. }
+  destruct p as [|t1 p].
+  - congruence.
+  - destruct p as [|t2 p].
+    + replace (reverse_pat [t1] prefix) with [Lit prefix; t1] by (destruct t1; reflexivity).
+      rewrite A. reflexivity.
+    + destruct t1 as [w| |r|];
+        try (match goal with |- reverse_pat (reverse_pat ?q prefix) prefix = _ =>
+               replace (reverse_pat q prefix) with (Lit prefix :: q) by reflexivity end;
+             rewrite A; reflexivity).
+      cbn [reverse_pat]. destruct (String.eqb w prefix) eqn:E.
+      * apply String.eqb_eq in E. subst w.
+        destruct t2 as [w2| |r2|]; try (destruct p; reflexivity).
+        destruct p as [|t3 p]; [reflexivity|]. cbn [reverse_pat].
+        destruct (String.eqb w2 prefix) eqn:E2; [|reflexivity].
+        apply String.eqb_eq in E2. subst w2.
+        destruct (G (t3 :: p)) as [N|N]; [congruence | discriminate].
+      * rewrite A. reflexivity.
+Qed.
+
+(* ------------------------------------------------------------------------------ *)
+(* parse / print                                                                   *)
+
+Theorem parse_pat_sound s p : parse_pat s = Some p -> wf_pat p = true /\ print_pat p = s.
+Proof.
+  unfold parse_pat. destruct (wf_row s); [|discriminate].
+  destruct (parse_toks (words s)) as [q|]; [|discriminate].
+  destruct (wf_pat q && String.eqb (print_pat q) s) eqn:E; [|discriminate].
+  intro H. injection H as <-. apply andb_true_iff in E as [E1 E2].
+  apply String.eqb_eq in E2. auto.
+Qed.
+
+Lemma sappend_assoc (a b c : string) : ((a ++ b) ++ c = a ++ (b ++ c))%string.
+Proof. induction a; cbn; [reflexivity | f_equal; assumption]. Qed.
+
+Lemma sappend_nil_r (a : string) : (a ++ "" = a)%string.
+Proof. induction a; cbn; [reflexivity | f_equal; assumption]. Qed.
+
+Definition no_ws (w : string) : Prop := forallb (fun c => negb (is_ws c)) (l_of w) = true.
+
+Lemma words_aux_word w : forall cur rest, no_ws w ->
+  words_aux (w ++ rest) cur = words_aux rest (cur ++ w).
+Proof.
+  induction w as [|c w IH]; intros cur rest H.
+  - cbn. rewrite sappend_nil_r. reflexivity.
+  - unfold no_ws in H. cbn [l_of forallb] in H. apply andb_true_iff in H as [Hc H].
+    apply negb_true_iff in Hc.
+    change ((String c w ++ rest)%string) with (String c (w ++ rest)). cbn [words_aux]. rewrite Hc.
+    rewrite IH by exact H. rewrite sappend_assoc. reflexivity.
+Qed.
+
+Lemma words_join ws :
+  (forall w, In w ws -> no_ws w /\ is_empty w = false) ->
+  words (join_with " " ws) = ws.
+Proof.
+  induction ws as [|w ws IH]; intro H; [reflexivity|].
+  destruct (H w (or_introl eq_refl)) as [Hw Hne].
+  destruct ws as [|w2 ws].
+  - cbn [join_with]. unfold words. rewrite <- (sappend_nil_r w) at 1.
+    rewrite words_aux_word by exact Hw. cbn. rewrite Hne. reflexivity.
+  - change (join_with " " (w :: w2 :: ws)) with (w ++ " " ++ join_with " " (w2 :: ws))%string.
+    unfold words. rewrite words_aux_word by exact Hw.
+    change ((" " ++ join_with " " (w2 :: ws))%string) with (String " " (join_with " " (w2 :: ws))).
+    cbn [words_aux]. change (is_ws " ") with true. cbn iota.
+    change (("" ++ w)%string) with w. rewrite Hne. f_equal.
+    apply IH. intros w' Hin. apply H. right. exact Hin.
+Qed.
+
+Lemma graph_no_ws w : forallb is_graph (l_of w) = true -> no_ws w.
+Proof.
+  unfold no_ws. apply forallb_impl. intros c H. apply graph_facts in H as (_ & H & _).
+  rewrite H. reflexivity.
+Qed.
+
+Lemma print_tok_word t : wf_tok t = true -> word_ok (print_tok t) = true.
+Proof.
+  intro H. apply ptok_graph in H as [H1 H2]. unfold word_ok. unfold ptok in *.
+  rewrite H1, andb_true_r. apply negb_true_iff. apply is_empty_l_of. exact H2.
+Qed.
+
+Lemma wf_row_print p : p <> [] -> forallb wf_tok p = true ->
+  words (print_pat p) = map print_tok p /\ wf_row (print_pat p) = true.
+Proof.
+  intros Hne Hwf.
+  assert (W : words (print_pat p) = map print_tok p).
+  { unfold print_pat. apply words_join. intros w Hin. apply in_map_iff in Hin as (t & <- & Hin).
+    eapply forallb_forall in Hwf; [|exact Hin]. apply print_tok_word in Hwf.
+    unfold word_ok in Hwf. apply andb_true_iff in Hwf as [H1 H2]. split.
+    - apply graph_no_ws. exact H2.
+    - apply negb_true_iff. exact H1. }
+  split; [exact W|]. unfold wf_row. rewrite W.
+  destruct (map print_tok p) as [|x l] eqn:E; [destruct p; [congruence | discriminate]|].
+  rewrite <- E. fold (print_pat p). rewrite String.eqb_refl, andb_true_r.
+  apply forallb_forall. intros w Hin. apply in_map_iff in Hin as (t & <- & Hin).
+  apply print_tok_word. eapply forallb_forall in Hwf; eauto.
+Qed.
+
+Lemma cls_eqb_eq a b : cls_eqb a b = true -> a = b.
+Proof. destruct a, b; cbn; congruence. Qed.
+
+Lemma citem_eqb_eq a b : citem_eqb a b = true -> a = b.
+Proof.
+  destruct a, b; cbn; try discriminate; intro H.
+  - apply Ascii.eqb_eq in H. congruence.
+  - apply Ascii.eqb_eq in H. congruence.
+  - apply andb_true_iff in H as [H1 H2]. apply Ascii.eqb_eq in H1, H2. congruence.
+  - apply cls_eqb_eq in H. congruence.
+Qed.
+
+Lemma list_eqb_eq {A} (e : A -> A -> bool) (He : forall x y, e x y = true -> x = y) :
+  forall a b, list_eqb e a b = true -> a = b.
+Proof.
+  induction a as [|x a IH]; intros [|y b] H; cbn in H; try discriminate; [reflexivity|].
+  apply andb_true_iff in H as [H1 H2]. f_equal; auto.
+Qed.
+
+Lemma list_eqb_refl {A} (e : A -> A -> bool) (He : forall x, e x x = true) :
+  forall a, list_eqb e a a = true.
+Proof. induction a; cbn; [reflexivity|]. rewrite He. assumption. Qed.
+
+Lemma sre_eqb_eq a : forall b, sre_eqb a b = true -> a = b.
+Proof.
+  induction a; intros b H; destruct b; cbn in H; try discriminate; try reflexivity.
+  - apply Ascii.eqb_eq in H. congruence.
+  - apply Ascii.eqb_eq in H. congruence.
+  - apply cls_eqb_eq in H. congruence.
+  - apply andb_true_iff in H as [H1 H2]. apply Bool.eqb_prop in H1.
+    apply (list_eqb_eq _ citem_eqb_eq) in H2. congruence.
+  - apply andb_true_iff in H as [H1 H2]. apply Bool.eqb_prop in H1. apply IHa in H2. congruence.
+  - apply andb_true_iff in H as [H1 H2]. apply IHa1 in H1. apply IHa2 in H2. congruence.
+  - apply andb_true_iff in H as [H1 H2]. apply IHa1 in H1. apply IHa2 in H2. congruence.
+  - apply IHa in H. congruence.
+  - apply IHa in H. congruence.
+  - apply IHa in H. congruence.
+Qed.
+
+Lemma plain_word_not_special w : plain_word w = true ->
+  String.eqb w "*" = false /\ String.eqb w "~" = false /\
+  match l_of w with a :: _ => Ascii.eqb a "*" = false | [] => True end.
+Proof.
+  intro H. apply plain_word_first in H as (c & r & E & Hc).
+  apply lit_char_facts in Hc as (_ & H1 & H2 & _). unfold neqc in *.
+  apply negb_true_iff in H1, H2. rewrite E. repeat split.
+  - apply String.eqb_neq. intro N. subst w. cbn in E. injection E as <- _. discriminate.
+  - apply String.eqb_neq. intro N. subst w. cbn in E. injection E as <- _. discriminate.
+  - exact H1.
+Qed.
+
+Lemma parse_tok_print t : wf_tok t = true -> parse_tok (print_tok t) = Some t.
+Proof.
+  intro H. destruct t as [w| |r|]; try reflexivity.
+  - cbn [wf_tok print_tok] in *. unfold parse_tok.
+    destruct (plain_word_not_special _ H) as (E1 & E2 & E3). rewrite E1, E2.
+    destruct (l_of w) as [|a [|b body]]; rewrite ?H; try reflexivity.
+    rewrite E3. cbn [andb]. reflexivity.
+  - cbn [wf_tok] in H. unfold parse_tok.
+    assert (E1 : String.eqb (print_tok (StarRe r)) "*" = false).
+    { apply String.eqb_neq. intro N. apply (f_equal l_of) in N. fold (ptok (StarRe r)) in N.
+      rewrite ptok_re in N. discriminate. }
+    assert (E2 : String.eqb (print_tok (StarRe r)) "~" = false).
+    { apply String.eqb_neq. intro N. apply (f_equal l_of) in N. fold (ptok (StarRe r)) in N.
+      rewrite ptok_re in N. discriminate. }
+    rewrite E1, E2. fold (ptok (StarRe r)). rewrite ptok_re.
+    change (Ascii.eqb "*" "*" && Ascii.eqb "/" "/") with true. cbn iota.
+    rewrite unsnoc_snoc. change (Ascii.eqb "/" "/") with true. cbn iota.
+    unfold sre_ok in H. apply andb_true_iff in H as [_ H].
+    destruct (parse_sre_l (print_sre_l r)) as [r'|]; [|discriminate].
+    apply sre_eqb_eq in H. subst. reflexivity.
+Qed.
+
+Lemma parse_toks_print p : forallb wf_tok p = true -> parse_toks (map print_tok p) = Some p.
+Proof.
+  induction p as [|t p IH]; intro H; [reflexivity|].
+  cbn [forallb] in H. apply andb_true_iff in H as [Ht H].
+  cbn [map parse_toks]. rewrite parse_tok_print, IH by assumption. reflexivity.
+Qed.
+
+Theorem parse_pat_print p : wf_pat p = true -> parse_pat (print_pat p) = Some p.
+Proof.
+  intro Hwf. pose proof Hwf as Hwf0. apply wf_pat_parts in Hwf as (Hne & Hw & Htl).
+  destruct (wf_row_print p Hne Hw) as [W R].
+  unfold parse_pat. rewrite R, W, parse_toks_print by exact Hw.
+  rewrite Hwf0, String.eqb_refl. reflexivity.
+Qed.
+
+(* ------------------------------------------------------------------------------ *)
+(* the model satisfies the predicate                                               *)
+
+Lemma lremove_noop pt : forall s, lcontains pt s = false -> lremove pt 0 s = s.
+Proof.
+  induction s as [|c s IH]; intro H; [reflexivity|].
+  cbn [lcontains] in H. apply orb_false_iff in H as [H1 H2].
+  cbn [lremove]. rewrite H1. f_equal. apply IH. exact H2.
+Qed.
+
+Lemma rule_strip_ic_noop rule : rule_has_ic rule = false -> rule_strip_ic rule = rule.
+Proof. unfold rule_has_ic, rule_strip_ic. intro H. rewrite lremove_noop by exact H. apply s_of_l_of. Qed.
+
+Lemma list_str_eqb_refl l : list_str_eqb l l = true.
+Proof. apply list_str_eqb_eq. reflexivity. Qed.
+
+Lemma opt_str_eqb_refl o : opt_eqb String.eqb o o = true.
+Proof. destruct o; cbn; [apply String.eqb_refl | reflexivity]. Qed.
+
+Lemma row_out_eqb_refl o : row_out_eqb o o = true.
+Proof.
+  destruct o as [[k f]|]; cbn; [|reflexivity]. rewrite list_str_eqb_refl, opt_str_eqb_refl. reflexivity.
+Qed.
+
+Theorem P_C07_model x :
+  wf_C07 x = true -> rule_has_ic (ci_rule x) = false -> P_C07 x (model_C07 x) = true.
+Proof.
+  intros Hwf Hic. unfold wf_C07 in Hwf. apply andb_true_iff in Hwf as [Hwf Hp].
+  apply andb_true_iff in Hwf as [Hr _].
+  unfold P_C07, model_C07.
+  destruct (rule_pat (ci_rule x)) as [p|] eqn:E; [|discriminate].
+  unfold rule_pat in E. rewrite rule_strip_ic_noop in E by exact Hic.
+  apply parse_pat_sound in E as [Wp Ep]. cbn [co_ffmt co_rows].
+  rewrite <- Ep. rewrite make_reverse_format by assumption. rewrite opt_str_eqb_refl. cbn [andb].
+  rewrite Ep.
+  match goal with |- list_eqb _ ?a ?b = true => replace a with b; [apply list_eqb_refl, row_out_eqb_refl|] end.
+  apply map_ext. intro row. unfold spec_row. rewrite ref_match_eq.
+  destruct (pmatch p (rule_ic (ci_rule x) (ci_ic x)) row) as [key|]; [|reflexivity].
+  rewrite <- Ep, make_reverse_format by assumption. reflexivity.
+Qed.
+
+(* ------------------------------------------------------------------------------ *)
+(* ignore_case                                                                     *)
+
+Lemma s_of_app a b : s_of (a ++ b) = (s_of a ++ s_of b)%string.
+Proof. induction a; cbn; [reflexivity | f_equal; assumption]. Qed.
+
+Lemma lower_str_app a b : lower_str (a ++ b) = (lower_str a ++ lower_str b)%string.
+Proof. unfold lower_str. rewrite l_of_app, map_app, s_of_app. reflexivity. Qed.
+
+Lemma lower_join ws : lower_str (join_with " " ws) = join_with " " (map lower_str ws).
+Proof.
+  induction ws as [|x ws IH]; [reflexivity|].
+  destruct ws as [|y ws]; [reflexivity|].
+  change (join_with " " (x :: y :: ws)) with (x ++ " " ++ join_with " " (y :: ws))%string.
+  rewrite !lower_str_app, IH. reflexivity.
+Qed.
+
+Lemma map_lower_idem ws : map lower_str (map lower_str ws) = map lower_str ws.
+Proof. rewrite map_map. apply map_ext. apply lower_str_idem. Qed.
+
+(* with ignore_case the outcome depends on the row only up to letter case
+   (the key itself is spelled as in the row: see pmatch_words_iff) *)
+Theorem pmatch_words_ic_row p : forall ws,
+  option_map (map lower_str) (pmatch_words p true (map lower_str ws)) =
+  option_map (map lower_str) (pmatch_words p true ws).
+Proof.
+  induction p as [|t p IH]; intro ws; [reflexivity|].
+  destruct t as [w| |r|].
+  - destruct ws as [|x ws]; [reflexivity|]. cbn [map pmatch_words].
+    rewrite word_eq_lower. destruct (word_eq true w x); [apply IH | reflexivity].
+  - destruct ws as [|x ws]; [reflexivity|]. cbn [map pmatch_words].
+    specialize (IH ws).
+    destruct (pmatch_words p true (map lower_str ws)) as [k1|],
+             (pmatch_words p true ws) as [k2|]; cbn in *; try congruence.
+    injection IH as IH. rewrite lower_str_idem, IH. reflexivity.
+  - destruct ws as [|x ws]; [reflexivity|]. cbn [map pmatch_words].
+    rewrite sre_imatch_lower. destruct (sre_imatch true r x); [|reflexivity].
+    specialize (IH ws).
+    destruct (pmatch_words p true (map lower_str ws)) as [k1|],
+             (pmatch_words p true ws) as [k2|]; cbn in *; try congruence.
+    injection IH as IH. rewrite lower_str_idem, IH. reflexivity.
+  - cbn [pmatch_words]. destruct p; [|reflexivity].
+    destruct ws as [|x ws]; [reflexivity|].
+    cbn [map option_map]. rewrite <- map_cons, !lower_join, map_lower_idem. reflexivity.
+Qed.
+
+Definition is_re (t : tok) : bool := match t with StarRe _ => true | _ => false end.
+
+(* without one-word regexps, a case-sensitive match is also a case-insensitive one *)
+Theorem pmatch_words_ic_mono p : forall ws key,
+  forallb (fun t => negb (is_re t)) p = true ->
+  pmatch_words p false ws = Some key -> pmatch_words p true ws = Some key.
+Proof.
+  induction p as [|t p IH]; intros ws key Hre H; [exact H|].
+  cbn [forallb] in Hre. apply andb_true_iff in Hre as [Ht Hre].
+  destruct t as [w| |r|]; try discriminate.
+  - destruct ws as [|x ws]; [discriminate|]. cbn [pmatch_words] in *.
+    destruct (word_eq false w x) eqn:E; [|discriminate].
+    rewrite (word_eq_mono _ _ E). apply IH; assumption.
+  - destruct ws as [|x ws]; [discriminate|]. cbn [pmatch_words] in *.
+    destruct (pmatch_words p false ws) as [k|] eqn:E; [|discriminate].
+    rewrite (IH _ _ Hre E). exact H.
+  - exact H.
+Qed.
+
+(* ------------------------------------------------------------------------------ *)
+(* rows                                                                            *)
+
+Lemma wf_row_words r : wf_row r = true ->
+  words r <> [] /\ forallb word_ok (words r) = true /\ r = join_with " " (words r).
+Proof.
+  unfold wf_row. destruct (words r) as [|x l] eqn:E; [discriminate|].
+  intro H. apply andb_true_iff in H as [H1 H2]. apply String.eqb_eq in H2.
+  repeat split; [discriminate | exact H1 | exact H2].
+Qed.
+
+(* ------------------------------------------------------------------------------ *)
+(* the ACL / ordering reverse form is again a plain pattern                        *)
+
+Theorem reverse_row_print p prefix :
+  wf_pat p = true -> plain_word prefix = true ->
+  reverse_row (print_pat p) prefix = print_pat (reverse_pat p prefix).
+Proof.
+  intros Hwf Hp. apply wf_pat_parts in Hwf as (Hne & Hw & Htl).
+  unfold reverse_row. rewrite text_of_pat, reverse_row_pat by assumption.
+  rewrite <- text_of_pat. apply s_of_l_of.
+Qed.
+
+Lemma reverse_pat_nonempty p prefix : reverse_pat p prefix <> [].
+Proof.
+  destruct p as [|t1 [|t2 p]]; try discriminate; try (destruct t1; discriminate).
+  destruct t1 as [w| |r|]; try discriminate. cbn. destruct (String.eqb w prefix); discriminate.
+Qed.
+
+Theorem reverse_pat_wf_pat p prefix :
+  wf_pat p = true -> plain_word prefix = true -> wf_pat (reverse_pat p prefix) = true.
+Proof.
+  intros Hwf Hp. apply wf_pat_parts in Hwf as (Hne & Hw & Htl).
+  destruct (reverse_pat_wf p prefix Hw Htl Hp) as [H1 H2].
+  unfold wf_pat. rewrite H1, H2.
+  pose proof (reverse_pat_nonempty p prefix) as N.
+  destruct (reverse_pat p prefix); [congruence | reflexivity].
+Qed.
+
+Theorem parse_reverse_row p prefix :
+  wf_pat p = true -> plain_word prefix = true ->
+  parse_pat (reverse_row (print_pat p) prefix) = Some (reverse_pat p prefix).
+Proof.
+  intros Hwf Hp. rewrite reverse_row_print by assumption.
+  apply parse_pat_print. apply reverse_pat_wf_pat; assumption.
+Qed.
+
+Lemma prefix_lprefix : forall a s, String.prefix a s = lprefix (l_of a) (l_of s).
+Proof.
+  induction a as [|c a IH]; intros [|d s]; cbn; try reflexivity.
+  rewrite <- IH. destruct (ascii_dec c d) as [->|N].
+  - rewrite Ascii.eqb_refl. reflexivity.
+  - apply Ascii.eqb_neq in N. rewrite N. reflexivity.
+Qed.
+
+Theorem reverse_row_prepends row prefix :
+  startswith (prefix ++ " ") row = false -> reverse_row row prefix = (prefix ++ " " ++ row)%string.
+Proof.
+  intro G. unfold startswith in G. rewrite prefix_lprefix, l_of_app in G. cbn [l_of] in G.
+  change " "%char with sp in G.
+  unfold reverse_row, reverse_row_l. rewrite G.
+  apply l_of_inj. rewrite l_of_s_of, !l_of_app. cbn [l_of]. rewrite <- app_assoc. reflexivity.
 Qed.
